@@ -183,7 +183,8 @@ def explore(ctx, res, replay=None):
             if m.group(4) == 'E':
                 res.violations.append(dict(case, what='message', detail='error with an empty message: ' + e))
             if not loc_ok(files, main, m.group(2), int(m.group(3))):
-                res.violations.append(dict(case, what='location', detail='error located at %s:%s (%s), which is not a line of a supplied file' % (
+                res.violations.append(dict(case, what='location', where='%s:%s' % (bytes.fromhex(m.group(2)).decode('latin-1') if m.group(2) != '-' else '', m.group(3)),
+                                           detail='error located at %s:%s (%s), which is not a line of a supplied file' % (
                     bytes.fromhex(m.group(2)).decode('latin-1') if m.group(2) != '-' else '', m.group(3), m.group(5))))
         if not ip['ok']:
             res.nontrivial.add(str(sorted(files.items())))
